@@ -665,6 +665,17 @@ def symbolic_paths(fv: "FuncView", at, exprs, stop=(), limit=6000, opaque_calls=
             else:
                 for nm in CFG.defs_of(node):
                     env[nm] = None
+            # an in-place store through a local (`x[i] = v`, `x.flat[k] = v`, `x[m] += v`) changes the object the name is bound
+            # to: from here on the name no longer stands for its defining expression
+            tg_ = s.targets if isinstance(s, ast.Assign) else ([s.target] if isinstance(s, (ast.AugAssign, ast.AnnAssign)) else [])
+            for t_ in tg_:
+                for tt_ in (t_.elts if isinstance(t_, (ast.Tuple, ast.List)) else [t_]):
+                    if isinstance(tt_, (ast.Subscript, ast.Attribute)):
+                        root_ = tt_
+                        while isinstance(root_, (ast.Subscript, ast.Attribute)):
+                            root_ = root_.value
+                        if isinstance(root_, ast.Name) and env.get(root_.id) is not None and root_.id not in ("self", "cls"):
+                            env[root_.id] = ast.Call(func=ast.Name(id="__modified_in_place__", ctx=ast.Load()), args=[env[root_.id]], keywords=[])
         vals = [_Subst(env, decisions).visit(copy.deepcopy(e)) for e in exprs]
         out.append((decisions, vals))
     return out
